@@ -1126,12 +1126,35 @@ def pp_stage(ctx, impl, logic):
         ctx.broken("hypotheses:c20:wf", "cond_parser returned a condition outside wfC: %s" % sexp.dumps(s_expr(notwf[0])))
 
 
+def to_printable_shape(c):
+    """Re-arrange a program into the shape parser2 returns: statements of a block in a right-nested
+    sequence, a conditional only as the last statement of its block (others are moved to the end)."""
+    def stmts(x):
+        return stmts(x[1]) + stmts(x[2]) if x[0] == "seq" else [x]
+
+    def fix(x):
+        if x[0] == "cond":
+            return ("cond", x[1], to_printable_shape(x[2]), to_printable_shape(x[3]))
+        if x[0] == "while":
+            return ("while", x[1], x[2], to_printable_shape(x[3]))
+        return x
+    ss = [fix(x) for x in stmts(c)]
+    conds = [x for x in ss if x[0] == "cond"]
+    ss = [x for x in ss if x[0] != "cond"] + conds[:1]
+    out = ss[-1]
+    for x in reversed(ss[:-1]):
+        out = ("seq", x, out)
+    return out
+
+
 def com_pp_stage(ctx, impl):
     """print_com -> com_parser of programs: model printer/parser against the real ones; meaning
     preserved (reference interpreter on a few states)."""
     rng = ctx.rng("compp")
     n = ctx.scale(300, 4000)
     coms = [gen_com(rng, rng.randint(0, 4), VARS[:3]) for _ in range(n)]
+    # half of them in the shape print_com can express (`;` nested to the right, no conditional before a `;`)
+    coms = [to_printable_shape(c) if i % 2 else c for i, c in enumerate(coms)]
     lines, texts = [], []
     for c in coms:
         vs = sorted(vars_of(c, set()))
@@ -1184,6 +1207,27 @@ def com_pp_stage(ctx, impl):
         ctx.count("compp:%s" % ("identical" if same else "different-tree"))
         if not same:
             check_com_roundtrip(ctx, impl, c)
+    # com_parse_print: for the programs the model calls printable, the model's round trip is the identity (up to
+    # negative constants) and so is the real one
+    outp = ctx.lean_driver(EXE, [sexp.dumps(["printable", s_com(c)]) for c in coms])
+    if outp is None or len(outp) != len(coms):
+        ctx.broken("correspondence:c20:driver", "model driver unavailable (printable)")
+    else:
+        nprint = 0
+        for i, (c, l) in enumerate(zip(coms, outp)):
+            fl = sexp.loads(l)
+            if fl[0] != "T":
+                continue
+            nprint += 1
+            if fl[1] != "T":
+                ctx.broken("hypotheses:c20:printable", "printableCom holds but the model's parseCom (ppCom c) is not normNegCom c: %s" % sexp.dumps(s_com(c)))
+                break
+            if texts[i] is not None:
+                r_p = parse_real(impl, texts[i], com=True)
+                if r_p != ("ok", norm_negconst_com(c)):
+                    ctx.broken("correspondence:c20:printable", "the model calls %s printable, but com_parser reads its print_com text as %s" % (sexp.dumps(s_com(c)), r_p))
+                    break
+        ctx.count("printableCom c: parse(print c) = c in model and code", nprint)
     # hypotheses and statement of lex_print_com on every generated program
     outl = ctx.lean_driver(EXE, [sexp.dumps(["lexcom", s_com(c)]) for c in coms])
     if outl is None or len(outl) != len(coms):
@@ -1463,6 +1507,22 @@ def alias_witness(ctx, F, n1, n2, found_in):
          "executing the program gives %s" % (n1, n2, F.cell(n1), found_in, fin, src, {n1: 1, n2: 2}), replay)
 
 
+def sem_rule_names(pt):
+    """The theorems Sem_* that eval_Sem's proof term applies, in a pre-order walk (the conversions that
+    normalise states and guards hang off the same tree and are skipped)."""
+    out = []
+
+    def walk(p):
+        if p.rule in ("apply_theorem", "apply_theorem_for"):
+            name = p.args if isinstance(p.args, str) else p.args[0]
+            if isinstance(name, str) and name.startswith("Sem_"):
+                out.append(name)
+        for q in p.prevs:
+            walk(q)
+    walk(pt)
+    return out
+
+
 def sem_case(ctx, F, c, init, check_proof=False):
     """eval_Sem on one program text.  Returns (src, names, fin) when evaluation succeeded and agreed
     with the reference interpreter, else None (failures / violations are registered here)."""
@@ -1545,7 +1605,7 @@ def sem_case(ctx, F, c, init, check_proof=False):
             ctx.count("sem:check-timeout")
         except Exception as e:  # noqa
             viol(ctx, "sem-proof:" + src, "the proof exported by eval_Sem is rejected by the checker (%s)" % classify_exc(e), replay)
-    return (src, names, fin)
+    return (src, names, fin, sem_rule_names(pt))
 
 
 def sem_stage(ctx):
@@ -1570,9 +1630,9 @@ def sem_stage(ctx):
             vs = gen_names(rng)
         else:
             vs = ["a", "b", "c", "d"][:rng.randint(1, 4)]
-        c = gen_nat_com(rng, rng.randint(0, 4), vs, rich)
+        c = to_printable_shape(gen_nat_com(rng, rng.randint(0, 4), vs, rich))     # the trees parser.py returns: `;` right-nested, a conditional last
         if rng.random() < 0.04:      # a parameter (capital letters are HOL variables, not program variables)
-            c = ("seq", c, ("assign", vs[0], ("bin", "add", ("var", vs[0]), ("var", rng.choice(["A", "B", "AB"])))))
+            c = to_printable_shape(("seq", ("assign", vs[0], ("bin", "add", ("var", vs[0]), ("var", rng.choice(["A", "B", "AB"])))), c))
         init = {v: rng.randint(0, 3) for v in vs if rng.random() < 0.6}
         cases.append((c, init))
     import time
@@ -1590,9 +1650,9 @@ def sem_stage(ctx):
             continue
         if do_check:
             ncheck += 1
-        src, names, fin = r
-        lines.append(sexp.dumps(["interp", 100000, s_com(c), [[sexp.enc(k), v] for k, v in sorted(init.items())], [sexp.enc(v) for v in names]]))
-        recs.append((src, init, names, fin))
+        src, names, fin, rules = r
+        lines.append(sexp.dumps(["evalsem", 100000, s_com(c), [[sexp.enc(k), v] for k, v in sorted(init.items())], [sexp.enc(v) for v in names]]))
+        recs.append((src, init, names, fin, rules))
     if recs:
         ctx.sample({"eval_Sem": recs[-1][0], "init": recs[-1][1], "final": recs[-1][3]})
     out = ctx.lean_driver(EXE, lines) if lines else []
@@ -1600,12 +1660,13 @@ def sem_stage(ctx):
         ctx.broken("correspondence:c20:driver", "model driver unavailable (interp stream)")
         return
     ndis = 0
-    for (src, init, names, fin), line in zip(recs, out):
-        exp = "(ok (%s))" % " ".join(str(fin[v]) for v in names)
+    for (src, init, names, fin, rules), line in zip(recs, out):
+        exp = "(ok (%s) (%s))" % (" ".join(rules), " ".join(str(fin[v]) for v in names))
+        ctx.count("sem:derivation-compared")
         if line != exp:
             ndis += 1
             if ndis <= 3:
-                ctx.broken("correspondence:c20:interp", "%r from %s: eval_Sem %s, Lean interpreter %s" % (src, init, exp, line))
+                ctx.broken("correspondence:c20:evalsem", "%r from %s: eval_Sem's rule sequence and final state %s, the model's %s" % (src, init, exp, line))
 
 
 # ------------------------------------------------------------------ imp.vcg through parse_com / parse_cond
@@ -1670,7 +1731,7 @@ def vcgnat_stage(ctx):
         vs = [v for v in vs if v.isalpha() and v.islower()] or ["a", "b"]
         # straight-line / conditional code over small constants; the postcondition is a guess about the final
         # values that is right or wrong for the program text -- only provable guesses are judged
-        c = gen_nat_com(rng, rng.randint(1, 3), vs, False)
+        c = to_printable_shape(gen_nat_com(rng, rng.randint(1, 3), vs, False))
         if has_loop(c):
             c = ("seq", ("assign", vs[0], I(rng.randint(0, 2))), ("assign", vs[-1], B("add", V(vs[0]), I(1))))
         pre = TRUE if rng.random() < 0.6 else B("eq", V(rng.choice(vs)), I(rng.randint(0, 2)))
@@ -2238,21 +2299,29 @@ MANIFEST = {
             "simplification, dropping a hypothesis that is literally true, preserves the meaning in every state, so both generators' condition "
             "lists are equi-valid), norm_subst_equiv (evaluating the function update of assign_rule = substitution), vcs_partial_only (PARTIAL "
             "correctness only: all conditions can be valid for a program that never terminates -- neither the code nor the theorems claim "
-            "termination). Semantics: exec_deterministic, interp_sound, interp_complete, typed_total, sem_adequate, sem_adequate_ws (the Sem "
+            "termination), vcg_statement_true + vcg_solve_sound (the HOL statement A1 --> ... --> An --> Valid P c Q that imp.vcg_norm returns is "
+            "true, and with every Ai discharged the triple Valid P c Q of library/hoare.json holds). Semantics: eval_Sem_derives + "
+            "eval_Sem_total (the derivation imp.eval_Sem assembles from Sem_Skip/Sem_Assign/Sem_seq/Sem_if1/Sem_if2/Sem_while_skip/Sem_while_loop is "
+            "a well-formed derivation of Sem c s t in the library's inductive Sem, with t the interpreter's result, whenever the program runs to "
+            "completion), exec_deterministic, interp_sound, interp_complete, typed_total, sem_adequate, sem_adequate_ws (the Sem "
             "predicate of library/hoare.json, re-translated each run, coincides with Exec on programs passing the decidable check wsCom; states "
             "are functions with point updates, as in imp.py), hoare_rules_valid, sem_rules_pinned. Printing and reading back, on STRINGS: lex_print, "
             "lex_print_arith, lex_print_com (Lark's standard lexer -- white space skipped, CNAME/INT longest match, keyword retyping, longest "
             "literal -- reads the printed condition / expression / program back as exactly the printer's tokens, for names that are identifiers "
             "and not keywords: nameOK), print_parse_tokens, print_parse_id, print_parse_string, print_parse_sem (str(e) parsed by parser2's lexer and "
             "grammar, as LALR(1) with shift preference reads it, is e again up to the reading of negative constants, hence has the same value in "
-            "every state; for every wfC condition), parse_produces_wfC, reparse_of_parsed (every condition the grammar returns is wfC), vcs_in_language + vcs_shown_sem (every VC of a program of the "
+            "every state; for every wfC condition), parse_produces_wfC, reparse_of_parsed (every condition the grammar returns is wfC), com_parse_print + com_parse_print_exec (for every program print_com can express -- "
+            "printableCom, decidable -- parsing the printed text gives the program back and it executes identically), "
+            "seq_after_cond_counterexample (the known finding, proved: a conditional followed by `;` is read back as a different program), "
+            "vcs_in_language + vcs_shown_sem (every VC of a program of the "
             "assertion language is again in it, hence every VC string shown parses back to a condition with the value of the VC computed). "
-            "NOT proved: a parse-back theorem for programs (Seq(Cond(..),c) has no concrete syntax: known finding); anything about arrays, fields, "
+            "NOT proved: anything about arrays, fields, "
             "forall (convert_hol does not exist for them and get_vcs raises: out of scope); termination. "
             "COMPARED per run, model against code, observable results only: VC strings and VC HOL terms of get_lines/get_vcs (multisets), "
             "assumptions of imp.vcg_norm's theorem on triples built as HOL terms (multiset), Op.__str__, print_com text, cond_parser / com_parser "
             "results (valid and token-perturbed strings), token lists of the model lexer and of Lark's lexer on every printed string and on "
-            "character-perturbed strings, expression values, interpreter results, eval_Sem final states; the decidable hypotheses wfC, namesOK, "
+            "character-perturbed strings, expression values, interpreter results, eval_Sem final states and the sequence of Sem_* theorems in its proof term (pre-order) against the model's "
+            "derivation, the round trip parse(print c) = c of every program the model calls printable in model and code; the decidable hypotheses wfC, namesOK, "
             "nameOK, wsCom, okCom, okE, lexOKc are evaluated by the driver on every generated condition, VC, name, program and cond_parser result. "
             "JUDGED on the implementation's own outputs by the harness' reference evaluator / interpreter on concrete states: (a) VC HOL terms all "
             "true on -3..3 and on every visited state ==> executions from every grid state satisfying the precondition end in the postcondition "
@@ -2267,7 +2336,13 @@ MANIFEST = {
             "modelled, it only matters for keywords used as identifiers, which nameOK excludes); the holpy kernel and Z3 for the theorems "
             "eval_Sem / vcg_solve return. Not modelled: arrays / fields / forall, functions of arity > 2, >=, >, <-->, false in the printed "
             "language (no concrete syntax in parser2; never produced by compute_wp). Known finding: print_com cannot express a sequence whose "
-            "first part ends in a conditional.",
+            "first part ends in a conditional. Parts of imperative/ and its callers touched by NO theorem and NO stream: the Lark grammar "
+            "of imperative/parser.py itself (parser1; its results are used by the eval_Sem / vcg_solve streams, whose generator only emits the "
+            "right-nested trees that grammar returns, but the grammar is not modelled); parser.process_file / parser2.process_file and "
+            "imperative/examples/test.json (file drivers, run by the repository's own tests); the macro / method / tactic wrappers in imp.py "
+            "(eval_Sem_macro.can_eval/get_proof_term, eval_Sem_method, vcg_macro, vcg_tactic, vcg_method: they call eval_Sem / vcg_norm, which "
+            "are covered, but their own argument handling is not); expr.ArrayElt / Field / Forall and 'int array' contexts; app/imperative.py "
+            "(JSON interface: parses with parser2, prints with print_com / get_lines, forwards proofs to the server).",
     "design_ref": "DESIGN.md 8.11",
 }
 FINDINGS = [
